@@ -13,7 +13,7 @@
     [wstart s] the instant the oldest of them was issued.  A snapshot content
     is [mkCfg set objs]: the service objects found in the map at collect time
     and the state those objects were in at write time. *)
-From KP Require Import model.Base model.Trace model.M5snap proofs.SnapFacts.
+From KP Require Import model.Base model.Trace model.M5snap corr.C12corr proofs.SnapFacts proofs.SnapFsFacts.
 
 (** ** The tree as given (D7) *)
 
@@ -230,6 +230,35 @@ Theorem c12_serialised_steps : forall tr e s s' c,
   forall w, In w (s_writers s) -> w_cmd w = c /\ s_writers s = [w] /\ (forall svcs, read e <> VCollect c svcs).
 Proof. exact serialised_steps. Qed.
 Print Assumptions c12_serialised_steps.
+
+(** ** The state file at file-system granularity *)
+
+(** In the repaired model the state file changes only by the rename step:
+    never by a create/truncate, a write or a removal.  Its observable
+    counterpart is the inotify monitor [c12_fs_ok] (corr/C12corr.v): after its
+    first appearance the state file's name sees nothing but IN_MOVED_TO. *)
+Theorem c12_live_changes_only_at_rename : forall s e s',
+  snap_step Repaired s e = Some s' -> s_live s' <> s_live s -> exists c, read e = VRename c.
+Proof. exact live_changes_only_at_rename. Qed.
+Print Assumptions c12_live_changes_only_at_rename.
+
+(** the directory events the model's steps stand for (temp file created,
+    written, closed; renamed over the state file) satisfy that monitor, for
+    every trace *)
+Theorem c12_fs_monitor_of_model : forall tr, c12_fs_ok (fs_of_trace tr) = true.
+Proof. exact fs_projection_ok. Qed.
+Print Assumptions c12_fs_monitor_of_model.
+
+(** non-vacuity of the monitor: remove-then-rename and truncate-in-place are refused *)
+Example c12_fs_remove_then_rename_refused :
+  c12_fs_failures [(FsCreate, FsTemp); (FsModify, FsTemp); (FsCloseWrite, FsTemp); (FsMovedFrom, FsTemp); (FsMovedTo, FsLive);
+                   (FsCreate, FsTemp); (FsModify, FsTemp); (FsCloseWrite, FsTemp);
+                   (FsDelete, FsLive); (FsMovedFrom, FsTemp); (FsMovedTo, FsLive)] = [8].
+Proof. vm_compute. reflexivity. Qed.
+
+Example c12_fs_truncate_in_place_refused :
+  c12_fs_failures [(FsCreate, FsLive); (FsModify, FsLive); (FsModify, FsLive); (FsModify, FsLive)] = [1; 2; 3].
+Proof. vm_compute. reflexivity. Qed.
 
 (** ** Non-vacuity *)
 
